@@ -3,13 +3,13 @@
    boundary classes of their columns (one field at a time around a base atom, plus the
    interacting groups name x element, chain x resSeq x iCode, numbers x hybrid-36;
    Rich = TRUE adds the full products of the coordinate and B-factor / occupancy classes).
-   One state per input: inp = the structure, out = PdbFile!Expect(inp). *)
+   Per input: inp = the structure, out = PdbFile!Expect(inp) once done. *)
 EXTENDS PdbFile, TLC
 
 CONSTANT Rich
 
-VARIABLES inp, out
-vars == <<inp, out>>
+VARIABLES inp, out, done
+vars == <<inp, out, done>>
 
 R(n, d) == <<n, d>>
 (* --- coordinates (all exactly representable as float32) ------------------------------- *)
@@ -76,12 +76,13 @@ Inputs ==
                        s \in SerialClasses \cup SerialH36, r \in ResiClasses \cup ResiH36, h \in BOOLEAN}
           ELSE {})
 
-Init == inp \in Inputs /\ out = Expect(inp)
-Next == UNCHANGED vars
+(* two steps per input, so that TLC's workers share the evaluation of Expect *)
+Init == inp \in Inputs /\ out = Pending /\ done = FALSE
+Next == ~done /\ done' = TRUE /\ out' = Expect(inp) /\ UNCHANGED inp
 Spec == Init /\ [][Next]_vars
 
-InvRoundTrip == RoundTripOK(inp, out)
-InvColumns == ColumnsOK(inp, out)
-InvAcceptance == AcceptanceOK(inp)
-InvModels == ModelsOK(inp, out)
+InvRoundTrip == done => RoundTripOK(inp, out)
+InvColumns == done => ColumnsOK(inp, out)
+InvAcceptance == done => AcceptanceOK(inp)
+InvModels == done => ModelsOK(inp, out)
 =============================================================================
